@@ -2,6 +2,7 @@
 use crate::c01::corpus;
 use crate::drive::{drive_bytes, Verdict};
 use fvcore::{arg_after, guarded, Report, Rng};
+use read_fonts::TableProvider;
 use serde_json::{json, Value};
 
 pub fn judge(name: &str, what: &str, bytes: &[u8], level: u8, ev: &mut Vec<Value>, rep: &mut Report) -> Option<u64> {
@@ -36,6 +37,7 @@ pub fn main(args: &[String]) {
         Some("corpus") => {
             let seed: u64 = arg_after(args, "--seed").map(|s| s.parse().unwrap()).unwrap_or(0);
             let muts: usize = arg_after(args, "--mutations").map(|s| s.parse().unwrap()).unwrap_or(4);
+            let per_field: usize = arg_after(args, "--field-stride").map(|s| s.parse().unwrap()).unwrap_or(3);
             let mut rng = Rng::new(seed ^ 0xc02);
             for (name, bytes) in corpus(2_000_000) {
                 let d1 = judge(&name, "as is", &bytes, 2, &mut ev, &mut rep);
@@ -46,6 +48,38 @@ pub fn main(args: &[String]) {
                     }
                 }
                 rep.distinct += 1;
+                // extreme values in the plain metric fields (head, hhea, vhea, OS/2, maxp, post, first hmtx records): every
+                // 16-bit field set to the i16 / u16 limits, alone and as (max, min) pairs with its neighbour
+                if bytes.len() < 120_000 {
+                    if let Ok(f) = read_fonts::FontRef::new(&bytes) {
+                        let base_ptr = bytes.as_ptr() as usize;
+                        let mut spots: Vec<usize> = vec![];
+                        for tag in [b"head", b"hhea", b"vhea", b"OS/2", b"maxp", b"post", b"hmtx", b"vmtx"] {
+                            if let Some(d) = f.data_for_tag(font_types::Tag::new(tag)) {
+                                let off = d.as_bytes().as_ptr() as usize - base_ptr;
+                                for p in (0..d.len().min(100)).step_by(2) {
+                                    spots.push(off + p);
+                                }
+                            }
+                        }
+                        for (k, p) in spots.iter().enumerate() {
+                            for (a, b2) in [(0x7FFFu16, None), (0x8000, None), (0xFFFF, None), (0x7FFF, Some(0x8000u16)), (0x8000, Some(0x7FFF))] {
+                                if (k + a as usize) % per_field != 0 {
+                                    continue;
+                                }
+                                let mut b = bytes.clone();
+                                if *p + 4 > b.len() {
+                                    continue;
+                                }
+                                b[*p..*p + 2].copy_from_slice(&a.to_be_bytes());
+                                if let Some(v) = b2 {
+                                    b[*p + 2..*p + 4].copy_from_slice(&v.to_be_bytes());
+                                }
+                                judge(&name, &format!("u16 at {p} = {a:#x}{}", b2.map(|v| format!(", next = {v:#x}")).unwrap_or_default()), &b, 1, &mut ev, &mut rep);
+                            }
+                        }
+                    }
+                }
                 // hostile variants of the file: truncations and random byte damage
                 for k in 0..muts {
                     let mut b = bytes.clone();
